@@ -193,6 +193,18 @@ def handler(case):
         rng.shuffle(rep)
         evs = [public_call(c) for c in calls + twins + rep]
         return {"events": evs}
+    if mode == "xproc":
+        # seeded calls on short, low-complexity regions with n = 2, 3 (all shuffles may coincide: retry / raise paths); the
+        # outcomes are compared between interpreter processes started with different hash salts
+        rng = random.Random(case["seed"])
+        outs = []
+        for k in range(case["n"]):
+            L = rng.randint(6, 12)
+            c = dict(op="dinuc", A=4, x=[[rng.choice([0, 0, 1, 2, 3]) for _ in range(L)]], start=0, end=-1, n=rng.choice([2, 3]),
+                     seed=rng.randint(0, 50), key=0, dt=k % 4, npseed=False)
+            e = public_call(c)
+            outs.append([e["st"], e.get("kind", ""), e["y"]])
+        return {"outs": outs}
     if mode == "ev":
         return {"ev": public_call(case["call"])}
 
